@@ -622,6 +622,27 @@ def _duplicate_static_tree_message(tree_path: str, creator_a: str, creator_b: st
     )
 
 
+def _nested_static_tree_message(outer_path: str, inner_path: str) -> str:
+    """Format the error for two static trees of different creators, one inside the other.
+
+    Like `_static_tree_file_message`, the text does not depend on which tree came first.
+
+    Parameters
+    ----------
+    outer_path, inner_path
+        The labels of the enclosing and the enclosed static tree, each with a trailing slash.
+
+    Returns
+    -------
+    message
+        The error message.
+    """
+    return (
+        f"Static tree ({inner_path}) lies inside static tree ({outer_path}): "
+        "static trees cannot be nested, in either order. Drop one of the two declarations."
+    )
+
+
 def _claim_collision_message(path: str, claim: Claim, decl: Decl) -> str:
     """Format the error for a declaration of `path` that collides with an existing claim.
 
@@ -1872,13 +1893,15 @@ class Workflow(Trellis):
                         _creator_phrase(creator.kind(), creator.label),
                     )
                 )
-            raise GraphError(f"Static tree is a subdirectory of an existing static tree: {path}")
+            raise GraphError(_nested_static_tree_message(static_tree.label, path))
         clause, pattern = prefix_clause("node.label", path)
-        sql = f"SELECT 1 FROM node WHERE kind = 'st' AND NOT detached AND {clause}"
-        if self.db.execute(sql, (pattern,)).fetchone() is not None:
-            raise GraphError(
-                f"Static tree is a parent directory of an existing static tree: {path}"
-            )
+        sql = (
+            f"SELECT label FROM node WHERE kind = 'st' AND NOT detached AND {clause} "
+            "ORDER BY label LIMIT 1"
+        )
+        row = self.db.execute(sql, (pattern,)).fetchone()
+        if row is not None:
+            raise GraphError(_nested_static_tree_message(path, row[0]))
         # A static tree is the sole owner of the files under it.
         # Attached file nodes already present under this path are therefore
         # either this creator's own static declarations, which the tree takes over below,
